@@ -193,6 +193,19 @@ def run(ctx):
         for B in OPERANDS:
             for op, w in (("==", "?eq"), ("!=", "?ne"), ("<", "?lt"), (">=", "?ge")):
                 cases.append(("infix", "(1, 2) (%s %s %s) \"yes\"" % (A, op, B), "(1, 2) ?(let X1 := %s; let X2 := %s; X1 X2 %s) \"yes\"" % (A, B, w)))
+    # E? is (E,): also when what E binds sits in a splice of a format string (plain context), in a sub-expression,
+    # in a block, or nowhere; with the name bound again / read / left alone afterwards
+    for E in ('"%( let A := 1; A %)"', '1 "%( let A := 2; %)x"', '"%( 1 (|A| A) %)"', '(let A := 1; A)', 'let A := 1; A', '"%s"', '{let A := 1; A} apply', '"%( "%( let A := 3; A %)" %)"', '7 (|A|)'):
+        for rest in ("let A := 2; A", "A", "5", "let B := 2; B"):
+            for pre in ("9", "(8, 9)"):
+                cases.append(("optional", "%s (%s)? %s" % (pre, E, rest), "%s ((%s),) %s" % (pre, E, rest)))
+    # raw strings: a backslash that ends a line (or precedes a tab) stands for itself, as the escape \\\\ does in a plain string
+    NL, TAB, BS = chr(10), chr(9), chr(92)
+    for raw, plain in (('r"a' + BS + NL + 'b"', '"a' + BS + BS + BS + 'nb"'), ('r"a' + BS + TAB + 'b"', '"a' + BS + BS + BS + 'tb"'),
+                       ('r"' + BS + NL + '"', '"' + BS + BS + BS + 'n"'), ('"x"' + BS + ' r"a' + BS + NL + 'b"', '"xa' + BS + BS + BS + 'nb"'),
+                       ('r"a' + BS + NL + 'b"' + BS + ' "c"', '"a' + BS + BS + BS + 'nbc"'), ('r"#define X ' + BS + NL + '  1"', '"#define X ' + BS + BS + BS + 'n  1"')):
+        cases.append(("raw-backslash", raw, plain))
+        cases.append(("raw-backslash", "[%s, %s length]" % (raw, raw), "[%s, %s length]" % (plain, plain)))
     # tokens delimit themselves: no whitespace is needed after an operator, `:=`, a bracket or a comma, also not
     # before a negative literal, a string or a bracket
     for op in ("==", "!=", "<", ">", "<=", ">=", "=~", "!~"):
